@@ -260,6 +260,7 @@ def main(argv=None):
             "checks_discharged": tot["checks"], "solver_queries": tot["queries"],
             "solver_seconds": round(tot["solver_s"], 2), "paths_aborted": tot["aborted"],
             "functions_encoded": encoded_functions(_BUILD, spec),
+            "c_functions_interpreted": sorted({f for r in results.values() if r for f in r.get("c_functions", [])}),
             "solver": "z3 %s (python wheel)" % __import__("z3").get_version_string(),
             "env_model_selftest_comparisons": st,
             "build": {"times_s": {k: round(v, 2) for k, v in _BUILD.times.items()}, "source": build.REPO},
